@@ -12,7 +12,7 @@ class Contract(object):
                  modifies=(), invariants=None, inline=False, on_raise=None, raises_when=None,
                  may_raise_app=True, ghost=None, self_cls=None, trusted=False, external=False,
                  note=None, props=(), generator=False, pure=True, loop_bounds=None, carries=(),
-                 ensures_fn=None, defaults=None, post_names=None, variants=None, definitions=None, unfold_depth=1, comprehensions=None, abstract_nonlinear=False, bounded_lists=None, instantiate_int_foralls=False, names_result=None, robust_when=None, may_raise=None, raises_classes=None, abstract_globals=None):
+                 ensures_fn=None, defaults=None, post_names=None, variants=None, definitions=None, unfold_depth=1, comprehensions=None, abstract_nonlinear=False, bounded_lists=None, instantiate_int_foralls=False, names_result=None, robust_when=None, may_raise=None, raises_classes=None, abstract_globals=None, concrete_inputs=None):
         self.file, self.qualname = file, qualname
         self.params = OrderedDict(params or [])
         self.requires = requires or (lambda v: [])
@@ -31,6 +31,7 @@ class Contract(object):
         self.defaults = defaults or {}
         self.post_names = post_names
         self.ghost = ghost or {}
+        self.concrete_inputs = concrete_inputs or {}     # conformance self-test only: parameters bound to literal values
         self.abstract_globals = abstract_globals or {}   # module-level data tables named by the contract instead of being interpreted
         self.definitions = definitions     # lambda: [definitional axioms of opaque spec functions revealed inside this function only]
         self.unfold_depth = unfold_depth
